@@ -8,11 +8,15 @@
   * `c14_line_iff`: one iteration of the header loop completes ⇔ the input starts with a line of
     that grammar; the result (end of head / skipped / header with these name and value slices) and
     the bytes consumed are exactly the grammar's — the options widen the language to this and no
-    further.
-  * `c14_block_iff`: the header loop completes ⇔ `BlockSpec` (lines one after another, at most
-    `cap` headers kept, values trimmed), at any offset and with any number of headers already stored.
-  * `c14_clean`: whatever a completed line consumed contains no NUL and no CR that is not
-    immediately followed by LF — also for dropped lines, under every option set.
+    further.  The cursor afterwards stands after the line; a header or skipped line is committed
+    (`tok = []`), the head-terminating empty line is left uncommitted (`tok` = that line end), as
+    in the Rust code, which only reads the position there.
+  * `c14_block_iff`: the header loop completes after `n` bytes ⇔ `BlockSpec` (lines one after another,
+    at most `cap` headers kept, values trimmed), at any offset and with any number of headers already
+    stored.  `c14_block_cursor`: every completed run is of that form, its final cursor standing
+    `n` bytes after the entry with the terminating line end in `tok`.
+  * `c14_no_nul`, `c14_no_lone_cr`: whatever a completed line consumed contains no NUL and no CR that
+    is not immediately followed by LF — also for dropped lines, under every option set.
   * `c14_options_only_widen`: a line of the default grammar is a line of every option set's grammar
     with the same result (up to the look-ahead byte folding needs).
 -/
@@ -24,22 +28,28 @@ namespace Hx
 theorem c14_line_iff (be : Backend) (hbe : be.Exact) (hc : HCfg) (k off : Nat) (input : List Byte)
     (res : Line) (c' : Cur) :
     (headerLine be hc k).run ⟨off, [], input⟩ = .ok (res, c') ↔
-      ∃ consumed after, input = consumed ++ after ∧ c' = ⟨off + consumed.length, [], after⟩ ∧
+      ∃ consumed after, input = consumed ++ after ∧
+        c' = (if res = .eoh then ⟨off, consumed, after⟩ else ⟨off + consumed.length, [], after⟩) ∧
         LineSpec hc k off consumed after res :=
   headerLine_iff be hbe hc k off input res c'
 
 theorem c14_block_iff (be : Backend) (hbe : be.Exact) (hc : HCfg) (cap off : Nat) (input : List Byte)
-    (hs₀ hs' : List Hdr) (fuel : Nat) (hf : input.length < fuel) (c' : Cur) :
-    headersLoop be hc cap fuel ⟨off, [], input⟩ hs₀ = (.ok c', hs') ↔
-      ∃ n hs, BlockSpec hc cap off hs₀.length input n hs ∧ hs' = hs₀ ++ hs ∧
-        c' = ⟨off + n, [], input.drop n⟩ :=
-  headersLoop_iff be hbe hc cap off input hs₀ hs' fuel hf c'
+    (hs₀ hs' : List Hdr) (fuel : Nat) (hf : input.length < fuel) (n : Nat) :
+    (∃ c', headersLoop be hc cap fuel ⟨off, [], input⟩ hs₀ = (.ok c', hs') ∧ c'.pos = off + n ∧
+        c'.rest = input.drop n) ↔
+      ∃ hs, BlockSpec hc cap off hs₀.length input n hs ∧ hs' = hs₀ ++ hs :=
+  headersLoop_iff be hbe hc cap off input hs₀ hs' fuel hf n
 
-theorem c14_clean (hc : HCfg) (k off : Nat) (consumed after : List Byte) (res : Line)
-    (h : LineSpec hc k off consumed after res) (x : Byte) (hx : after.head? = some x ∨ after = []) :
-    headClean (consumed ++ after.take 1) = true ∨ (∃ b, consumed.getLast? = some b ∧ b ≠ CR) →
-    ∀ b ∈ consumed, b ≠ NUL :=
-  lineSpec_no_nul hc k off consumed after res h x hx
+theorem c14_block_cursor (be : Backend) (hbe : be.Exact) (hc : HCfg) (cap off : Nat) (input : List Byte)
+    (hs₀ hs' : List Hdr) (fuel : Nat) (c' : Cur)
+    (h : headersLoop be hc cap fuel ⟨off, [], input⟩ hs₀ = (.ok c', hs')) :
+    ∃ n hs, BlockSpec hc cap off hs₀.length input n hs ∧ hs' = hs₀ ++ hs ∧
+      c'.pos = off + n ∧ c'.rest = input.drop n ∧ IsEol c'.tok :=
+  headersLoop_sound hbe hc cap fuel off input hs₀ hs' c' h
+
+theorem c14_no_nul (hc : HCfg) (k off : Nat) (consumed after : List Byte) (res : Line)
+    (h : LineSpec hc k off consumed after res) : ∀ b ∈ consumed, b ≠ NUL :=
+  lineSpec_no_nul hc k off consumed after res h
 
 theorem c14_no_lone_cr (hc : HCfg) (k off : Nat) (consumed after : List Byte) (res : Line)
     (h : LineSpec hc k off consumed after res) : headClean consumed = true :=
